@@ -97,7 +97,16 @@ def apply_op(tier, op, args, sc, kind):
         filt = None
         if args.get("filter") is not None:
             keep = set(args["filter"])
-            filt = lambda lab: lab in keep  # noqa
+            # a predicate answers with whatever is true or false for its author: a bool, a count, a match object
+            form = (st >> 9) % 3
+            if form == 0:
+                filt = lambda lab: lab in keep  # noqa
+            elif form == 1:
+                filt = lambda lab: [lab].count(lab) if lab in keep else 0  # noqa
+            else:
+                import re
+                pat = re.compile("|".join(re.escape(k) for k in sorted(keep)) if keep else r"(?!)")
+                filt = pat.fullmatch
         return tier.morph(tgt, filt)
     if name == "new":
         return tier.new()
